@@ -9,6 +9,8 @@ import atexit, concurrent.futures, json, os, re, shutil, subprocess, sys, tempfi
 
 VERIF = os.path.dirname(os.path.dirname(os.path.abspath(__file__)))
 REPO = os.environ.get("VERIF_REPO", "/repo")
+# development runs against a scratch copy of the repository (seeded / benign changes) leave evidence/ and replays/ of /verif alone
+OUTBASE = VERIF if REPO == "/repo" else "/tmp/verif-alt"
 SPEC = os.path.join(VERIF, "spec")
 HARNESS = os.path.join(VERIF, "harness")
 TLA_CP = "/opt/veriftools/tla/tla2tools.jar:/opt/veriftools/tla/CommunityModules-deps.jar"
@@ -229,7 +231,7 @@ class Ctx:
         return kn, new
 
     def write_replay(self, sig, record):
-        d = os.path.join(VERIF, "replays", self.prop)
+        d = os.path.join(OUTBASE, "replays", self.prop)
         os.makedirs(d, exist_ok=True)
         name = re.sub(r"[^A-Za-z0-9_.=-]+", "_", sig)[:120] or "case"
         p = os.path.join(d, name + ".json")
@@ -261,8 +263,8 @@ class Ctx:
         cov["transitions"] = max(1, cov["transitions"])
         ev = {"property_id": self.prop, "tier": self.tier, "seed": self.seed, "level": level, "coverage": cov,
               "assumptions": self.assumptions, "wall_s": round(time.time() - self.t0, 2), "violations": nviol}
-        os.makedirs(os.path.join(VERIF, "evidence"), exist_ok=True)
-        json.dump(ev, open(os.path.join(VERIF, "evidence", self.prop + ".json"), "w"), indent=1, default=str)
+        os.makedirs(os.path.join(OUTBASE, "evidence"), exist_ok=True)
+        json.dump(ev, open(os.path.join(OUTBASE, "evidence", self.prop + ".json"), "w"), indent=1, default=str)
         print("RESULT property=%s tier=%s seed=%d violations=%d known=%d wall=%.1fs" % (self.prop, self.tier, self.seed, nviol, len(kn), time.time() - self.t0))
         return 1 if nviol else 0
 
